@@ -181,6 +181,29 @@ def rules(ctx, tier):
                     if c and c[0] == "discr":
                         if any(l[0] == "call" and l[2] == site.bb for l in sl_.leaves_of_place(c[1])):
                             tested = True
+            if not tested:
+                # the Result travels on (map_err, `?` of the caller of an inlined helper): follow it forward to a branch
+                carriers = {site.term["dest"]["l"]} if not site.term["dest"]["p"] else set()
+                changed = True
+                while changed:
+                    changed = False
+                    for l2, defs in b.assignments().items():
+                        if l2 in carriers:
+                            continue
+                        for (dbb, j, rv) in defs:
+                            src = None
+                            if j != "term" and rv["k"] == "use":
+                                src = place_of(rv["op"])
+                            elif j == "term" and rv.get("args") and (term_path(rv) or "").split("::")[-1] in (
+                                    "map_err", "branch", "map", "into", "from", "or_else", "and_then", "inspect_err"):
+                                src = place_of(rv["args"][0])
+                            if src is not None and not src["p"] and src["l"] in carriers:
+                                carriers.add(l2)
+                                changed = True
+                for sw in b.normal_blocks():
+                    c = cfgutil.switch_condition(b, sw)
+                    if c and c[0] == "discr" and not c[1]["p"] and c[1]["l"] in carriers:
+                        tested = True
             r.check(tested, "delete-error-propagates", owner,
                     "a failed delete makes %s return an error" % owner.path, "the result of the delete callback in %s is ignored" % owner.path)
     r.check(n >= 1, "callback-sites", None, "%d delete-callback site(s)" % n, "expected at least 1 delete-callback site, found %d" % n)
